@@ -5,7 +5,7 @@ import json, subprocess
 G = 'TLC model checking of the bounded design model + TLC validation (GoderiveTrace.tla) of hook traces and observations recorded from the real goderive'
 CLAIMED = {
  'C01': dict(engine='G', ref='DESIGN.md 3 (C01), 11.2', technique='TLC enumeration of the type/plugin/call-site universe (GenCases.tla) + TLC validation (GoderiveTrace.tla) of hook traces and go/types observations of the real goderive on every case',
-   text='TLC enumerates every type term of constructor depth <= 2 over 13 leaves (basics, named basics, local / imported / same-named-import / recursive / embedded structs, unexported fields) x 15 plugins x 16 call-site forms (one per branch of Visit in find.go for the enclosing call: builtin, conversion, declared type, qualified callee, function literal, ...) restricted to Supported(plugin, T); the leaf-type core is run in every form and again under -prefix/-pluginprefix configurations (classic names kept; overlapping plugin prefixes), checks WellFormed, and exports the cases; each is a real package on which the real goderive runs; TLC validates the trace (every requested helper generated exactly once, name tables and import-alias table consistent, functions in the file = generated names) and the observations (exit 0, go/types type-check incl. unused/missing imports, no unresolved call). Also every package of 2-3 calls over assignability-related types (type I1 []int, type I2 []int, []int, struct{F []int}) with distinct names and types must generate. Quick = all depth<=1 body cases + 2000 sampled of the ~190k; thorough = all depth<=2 body cases + 30000 sampled.',
+   text='TLC enumerates every type term of constructor depth <= 2 over 16 leaves (basics, three type aliases, named basics, local / imported / same-named-import / recursive / embedded structs, unexported fields) x 15 plugins x 16 call-site forms (one per branch of Visit in find.go for the enclosing call: builtin, conversion, declared type, qualified callee, function literal, ...) restricted to Supported(plugin, T); the leaf-type core is run in every form and again under -prefix/-pluginprefix configurations (classic names kept; overlapping plugin prefixes), checks WellFormed, and exports the cases; each is a real package on which the real goderive runs; TLC validates the trace (every requested helper generated exactly once, name tables and import-alias table consistent, functions in the file = generated names) and the observations (exit 0, go/types type-check incl. unused/missing imports, no unresolved call). Also every package of 2-3 calls over assignability-related types (type I1 []int, type I2 []int, []int, struct{F []int}) with distinct names and types must generate. Quick = all depth<=1 body cases + 2000 sampled of the ~190k; thorough = all depth<=2 body cases + 30000 sampled.',
    note='go/types with a source importer defines "type-checks". Signature-directed plugins (fmap, compose, curry ...) are covered by engine F, not here. Known findings are keyed by shrunk (plugin, type, form, failure class).'),
  'C09': dict(engine='G', ref='DESIGN.md 3 (C09), 11.2', technique='TLC enumeration of negative cases (GenCases.tla WithBad) + argument-shape matrix and broken packages run on the real goderive; TLC validation of traces and observations',
    text='TLC enumerates type terms with exactly one chan/func/interface/unsafe.Pointer constituent at every position x 15 plugins x call-site forms; plus all 33 plugin prefixes x 90 argument-list templates (incl. untyped-constant arguments, arity mismatches between compose stages) (arity, mismatches, non-functions, variadic/curried signatures, unordered elements, asymmetric assignability) and 10 broken packages. TLC judges each real run: no panic or hang, exit 0 => derived.gen.go parses and type-checks, non-zero exit => a diagnostic, Add/Generate errors reach the exit status (PkgExit/RunEnd).',
